@@ -105,7 +105,7 @@ def handle (toks : List String) : Option String :=
         match parseNetlist net >>= specOf, parseLayout pos with
         | .error e, _ => "error:" ++ e
         | _, none => "error:bad-layout"
-        | .ok s, some L => if checkPos s L then "ok" else "fail " ++ firstFailure s L
+        | .ok s, some L => if checkPos s L then "ok" else "fail " ++ firstFailure s L ++ " ; all=" ++ ",".intercalate (failures s L)
       | _ => "error:bad-request"
   | "lay.place" :: rest => some <|
       match parseNetlist rest >>= placeModel with
